@@ -49,6 +49,24 @@ Proof. induction vs as [|v vs IH]; [reflexivity|]. cbn [map plain]. rewrite IH. 
 Lemma mangle_plain field : mangle [] [] field = dots_to_underscores field.
 Proof. reflexivity. Qed.
 
+(* ---- the method table entry ------------------------------------------------------------------------- *)
+
+Lemma make_method_error_slot id name ctx params velem outs r :
+  implements_error r = true ->
+  m_err (make_method id name ctx params velem (outs ++ [r])) = true /\
+  m_results (make_method id name ctx params velem (outs ++ [r])) = map rdesc_type outs.
+Proof.
+  intros H. unfold make_method. rewrite rev_app_distr. cbn [rev app]. rewrite H.
+  cbn [m_err m_results]. rewrite removelast_last. split; reflexivity.
+Qed.
+
+Lemma make_method_no_error_slot id name ctx params velem outs t :
+  m_err (make_method id name ctx params velem (outs ++ [RPlain t])) = false /\
+  m_results (make_method id name ctx params velem (outs ++ [RPlain t])) = map rdesc_type (outs ++ [RPlain t]).
+Proof.
+  unfold make_method. rewrite rev_app_distr. cbn [rev app implements_error m_err m_results]. split; reflexivity.
+Qed.
+
 Section C08.
 Variable fuel : nat.
 Variable hp : heap.
@@ -136,6 +154,12 @@ Proof.
   destruct x; cbn [outcome_of];
     match goal with |- context [service_encode ?a ?b ?c ?d ?e] => destruct (service_encode a b c d e) end; reflexivity.
 Qed.
+
+(* every request of a batch is answered as if it were alone *)
+Lemma serve_all_independent so svc rh reqs i req :
+  nth_error reqs i = Some req ->
+  nth_error (serve_all fuel hp lower io_dec io_dec_hdrs impl stack dec_err_text so svc rh reqs) i = Some (handle' so svc rh req).
+Proof. intros H. unfold serve_all. rewrite nth_error_map, H. reflexivity. Qed.
 
 (* one remote call, up to the point where the client decodes *)
 Lemma invoke_steps co so svc rh rts name args h ops m :
